@@ -22,10 +22,10 @@ CLAIMED = {
          "Seeded search over (document, per-callback decline/consume/nested-traversal decision) scenarios; every recorded callback history and final offset is checked against an independent RFC 8259 reference parser. Sampling, not proof: the document space is sampled, the decision space is enumerated only for containers of <= 8 members (thorough).",
          "Trusts the reference parser (cross-checked against encoding/json on every document; disagreement aborts with exit 2). Documents nested <= 10,000.", "DESIGN.md section 4 C07"),
  "C08": ("exploration", "deterministic simulation: family of tape-driven API-composition decoders (typed readers / skip / skip-fast / decline / nested traversals, three Buffer-sharing patterns); self-differential oracle",
-         "Seeded search over (document, per-member strategy tape, buffer pattern); oracle is direct ReadValue on the same bytes: equal final offset for every decoder, equal tree for read-everything decoders, failure of read-everything decoders where direct decoding fails (nesting <= 9,000). Decoders may keep a long-lived ValueReader and Buffers that have read (or failed on) the scenario's earlier documents.",
+         "Seeded search over (document, per-member strategy tape, buffer pattern); oracle is direct ReadValue on the same bytes: equal final offset for every decoder, equal tree for read-everything decoders, failure of read-everything decoders where direct decoding fails (nesting <= 9,000). A scenario may be a stream of two same-length messages through one read buffer decoded by the same decoder. Decoders may keep a long-lived ValueReader and Buffers that have read (or failed on) the scenario's earlier documents.",
          "Self-differential: ReadValue of the same tree is the reference (its own correctness is C03's). Values read through integer readers are not compared.", "DESIGN.md section 4 C08"),
  "C09": ("fault_enumeration", "fault injection: handler error at callback k (enumerated for <= 32 members) x error kind x accompanying offset incl. integer-limit values; history oracle",
-         "For each generated container every position k of the failing call is enumerated (<= 32 members) with pointer/value/io.EOF sentinels and offsets from the hostile catalogue; oracle is interface identity of the returned error and zero callbacks after the fault, also through nested traversals.",
+         "For each generated container every position k of the failing call is enumerated (<= 32 members) with pointer/value/io.EOF sentinels and offsets from the hostile catalogue; oracle is interface identity of the returned error and zero callbacks after the fault, also through nested traversals - incl. one traversal per nesting level through one Buffer down to 12,000 levels with the error raised far down and replaced by a handler on the way up.",
          "Documents are sampled; identity is Go == on the error interface.", "DESIGN.md section 4 C09"),
  "C10": ("fault_enumeration", "fault injection: hostile handler return values at every callback, hostile documents (also from each entry point's own domain, cut mid-token), scribbled/resized Buffers, dirty destinations, hostile memory layout (read-only input in front of an inaccessible page; cut-off part of a truncated document in the spare capacity); safety invariants after every operation; hang watchdog",
          "Every exported function runs on hostile documents (nesting to 1,000,000, megabyte tokens, every truncation, random bytes) with a handler returning integers from a 40-entry hostile catalogue (incl. the values that wrap p+pp), errors, or re-entering the library; invariants: no panic, termination, err==nil => 0<=p<=len, out-of-range offsets on consumed members => error.",
@@ -34,10 +34,10 @@ CLAIMED = {
          "REDUCED SCOPE. Histories of Decode calls on long-lived non-zero targets; oracle is the corresponding Read* on the same bytes plus a harness-side literal-null test: store exactly on reader success, offset just after null and untouched target on null, error and untouched target otherwise. Inputs are sampled per class (accepted, null behind whitespace, near-miss nulls incl. partial nulls with the rest behind the input, wrong type, out of range, numeric type boundaries, reader-prefix-then-null, truncated); one call in five finds its target holding a value derived from the input it is about to decode (raw text, the very value, the other sign of zero).",
          "What each reader accepts is taken from the Read* function of the same tree (C04/C05/C06/C13 own that).", "DESIGN.md section 4 C12"),
  "C14": ("exploration", "deterministic simulation of Buffer histories: scribble/resize faults between and inside calls, re-entrant handlers sharing the enclosing Buffer; twin execution with no Buffer as oracle",
-         "Histories of 1-12 buffer-taking calls incl. failing, depth-limited and handler-aborted ones, with the Buffer's stack overwritten/resized between calls and inside callbacks and handlers re-entering the library with the enclosing call's Buffer; each call is re-executed with nil buffers and the same tape: outcome and callback history must be identical.",
+         "Histories of 1-12 buffer-taking calls incl. failing, depth-limited and handler-aborted ones, with the Buffer's stack overwritten/resized between calls and inside callbacks and handlers re-entering the library with the enclosing call's Buffer; each call is re-executed with nil buffers and the same tape: outcome and callback history must be identical. Histories include 12,000 failing / handler-aborted / handler-panicking calls in a row, partial messages followed by the retry at the same address, same-length rewrites (content and structure) of the read buffer, documents of hundreds of kilobytes, garbage collections between calls.",
          "Self-differential (nil-buffer run of the same code). Sampled histories.", "DESIGN.md section 4 C14"),
  "C15": ("exploration", "deterministic simulation of ValueReader histories under tape-decided pool schedules; fresh-reader twin + deep snapshots re-verified after every step and after caller mutations",
-         "Histories of 1-10 reads on one reader incl. failing / depth-limit exits / documents of very different size, with P-miss / P-pick / P-evict at every borrow and caller mutations of returned trees; each result must equal a brand-new reader's, and every earlier result must stay equal to its snapshot.",
+         "Histories of 1-10 reads on one reader incl. failing / depth-limit exits / documents of very different size, with P-miss / P-pick / P-evict at every borrow and caller mutations of returned trees; each result must equal a brand-new reader's, and every earlier result (trees and kept error values) must stay equal to its snapshot. Histories include the next message at the same address, thousands of never-seen field names, runs of homogeneous arrays through one entry point, and a reader that has read tens of millions of values.",
          "Self-differential (fresh reader). The pool seam replaces sync.Pool (real sync.Pool behaviour is a subset of the schedules the tape can express).", "DESIGN.md section 4 C15"),
  "C16": ("fault_enumeration", "fault injection on destination/scratch buffers (40 prefix x spare-capacity configurations enumerated), poisoned input capacity, post-return overwrite; differential against empty destination + snapshots",
          "Appending functions are run with every one of 40 dirty-destination configurations (thorough) and compared with the empty-destination result; scratch functions with dirty reused scratch vs none; every exported function's input [:cap] is compared after the call (also failing calls); inputs, scratch and destinations are overwritten after return and all returned strings/trees re-compared; one input in four is mapped read-only in front of an inaccessible page (a write into the input faults even if it is undone before returning); argument trees of the StdLibCompatible helpers are scrubbed after the copy was taken.",
